@@ -118,15 +118,19 @@ type recorder struct {
 	// on for ever eventually stagnates; virtual time alone (a few ms per round) cannot end such a loop.
 	idleReqs  int
 	idleTails int
+	idleBytes int // get-entries payload served since the last progress
 	tripped   bool
 }
 
 const (
 	idleReqLimit  = 25000
 	idleTailLimit = 1500
+	idleByteLimit = 48 << 20
 )
 
-func (r *recorder) progress() { r.mu.Lock(); r.idleReqs, r.idleTails = 0, 0; r.mu.Unlock() }
+func (r *recorder) progress() { r.mu.Lock(); r.idleReqs, r.idleTails, r.idleBytes = 0, 0, 0; r.mu.Unlock() }
+
+func (r *recorder) served(n int) { r.mu.Lock(); r.idleBytes += n; r.mu.Unlock() }
 
 // idle counts one more request / round without progress; it reports (limit passed, first time, hopeless).
 func (r *recorder) idle(tail bool) (over, first, dead bool) {
@@ -137,12 +141,12 @@ func (r *recorder) idle(tail bool) (over, first, dead bool) {
 	} else {
 		r.idleReqs++
 	}
-	over = r.idleReqs > idleReqLimit || r.idleTails > idleTailLimit
+	over = r.idleReqs > idleReqLimit || r.idleTails > idleTailLimit || r.idleBytes > idleByteLimit
 	first = over && !r.tripped
 	if over {
 		r.tripped = true
 	}
-	dead = r.idleReqs > 3*idleReqLimit || r.idleTails > 3*idleTailLimit
+	dead = r.idleReqs > 3*idleReqLimit || r.idleTails > 3*idleTailLimit || r.idleBytes > 3*idleByteLimit
 	return
 }
 
@@ -153,11 +157,11 @@ func (r *recorder) add(e ev) {
 	r.evs = append(r.evs, e)
 	switch {
 	case e.Kind == "cancel" || e.Kind == "grant" || e.Kind == "revoke":
-		r.idleReqs, r.idleTails = 0, 0
+		r.idleReqs, r.idleTails, r.idleBytes = 0, 0, 0
 	case (e.Kind == "sth" || e.Kind == "cons" || e.Kind == "entries") && e.Fault != fNone:
-		r.idleReqs, r.idleTails = 0, 0
+		r.idleReqs, r.idleTails, r.idleBytes = 0, 0, 0
 	case e.Kind == "add" && e.Status != 0:
-		r.idleReqs, r.idleTails = 0, 0
+		r.idleReqs, r.idleTails, r.idleBytes = 0, 0, 0
 	}
 	r.mu.Unlock()
 }
@@ -511,6 +515,7 @@ func (s *source) getEntries(ctx context.Context, req *http.Request, start, end i
 		s.rec.add(ev{Kind: "entries", Fault: kind, First: start, Second: end, Status: st})
 		return r, e
 	}
+	s.rec.served(len(body))
 	s.rec.add(ev{Kind: "entries", First: start, Second: end, Served: k, Status: 200, Short: k < int(end-start+1), BeyondSTH: beyond})
 	return httpRsp(req, 200, body, nil), nil
 }
